@@ -124,6 +124,47 @@ CHECKS = {
              'on texts with comments / strings / character literals.',
         design_ref='DESIGN.md §5 C19',
         note='loc regex vs lexer equivalence is explored (character-level fuzz), not proved; variable counts are compared with the model only.'),
+    'C18': dict(
+        technique='Lean 4 proof (definitional unfolding of the analysis model: sugar statement = documented rewriting) + twin-program correspondence on the real code',
+        text='Proved on the model of compute_relation, for every context index / delta graph / mode: x++ ++x x-- --x equal '
+             'x = x +/- 1; y = x++ equals { y = x; x = x + 1; } and y = ++x equals { x = x + 1; y = x; } (and decrements); '
+             'y = -x equals y = x * c; y = +x equals y = x; y = !e and y = sizeof e equal y = c; a cast around a whole '
+             'right-hand side, an operand, or a unary operand is transparent; other stand-alone unary expressions have no '
+             'effect. Equalities are of the whole outcome (index, relations, exit flag, delta graph, skipped list, error). '
+             'Every run analyses generated programs next to their plain rewriting with the real code (every form at top '
+             'level, in branches, in loop bodies) and names the guilty form on a difference.',
+        design_ref='DESIGN.md §5 C18',
+        note='Context closure (same result inside any statement context) follows from compositionality of compute (C01 refinement); the twin runs exercise contexts on the real code.'),
+    'C15': dict(
+        technique='Lean 4 proof (decision logic of Analysis.func stated outright; choice object exactness via the C04 theorem) + field-by-field correspondence',
+        text='Proved on the model of Analysis.func, whatever the body analysis returns: an infinite result has no choices, '
+             'has a relation iff run-to-completion, and a flow description iff run-to-completion; a finite result has a '
+             'relation, a non-infinite choice object and no flow description; the bound has one entry per variable; and '
+             '(with C04) the choice object accepts exactly the vectors at which the reported relation has no infinity. Every '
+             'run checks these on real results (all 3^k vectors via a Lean predicate on the reported relation), plus '
+             'equality of the two modes on finite functions and that named flow pairs have a possibly-infinite cell.',
+        design_ref='DESIGN.md §5 C15',
+        note='Mode equality for finite functions is explored on the implementation, not proved.'),
+    'C12': dict(
+        technique='Lean 4 proof (invariances of the reference calculus: renaming, + vs -, skips and singleton sequences, do-while) + metamorphic runs on the real code',
+        text='Proved on the pointwise calculus Spec.sem: invariance under injective renaming of variables, + and - have '
+             'the same rule, a skip inside a sequence and a singleton sequence change nothing (redundant braces / empty '
+             'statements), do-while reads as while, derived matrices are square and never contain infinity. Transfer to '
+             'the code is by the C01 refinement (loop-free part proved) and by metamorphic runs every time: each function '
+             'vs its renamed (sorted order reversed) / +<->- / braces+empty statements / do-while twin and swapped function '
+             'order: verdict, degree, valid set and the matrix at EVERY valid choice must agree up to the renaming.',
+        design_ref='DESIGN.md §5 C12',
+        note='The proof is about the specification; the implementation side is metamorphic exploration + C01.'),
+    'C08': dict(
+        technique='Lean 4 proof (flag logic of the loop-mode model) + Lean oracle (calculus with per-cell failure) on real loop-mode results + differential correspondence',
+        text='Partial: proved on the model of get_result / maybe_result: flags are nested (linear => weak => polynomial), '
+             'unbounded means all false, a bounded variable carries a non-infinite choice object. The main clause (a '
+             'reported choice at which the derivation is failure-free for the variable and all its ancestors, bound = that '
+             'column, class = largest coefficient) is decided every run by the Lean predicate check.C08 on the real '
+             'LoopAnalysis results over all 3^k choices with Spec.semI as oracle; the model of inspect is diffed (flags, '
+             'accepted sets). One known finding (dependency ignored).',
+        design_ref='DESIGN.md §5 C08, §10.2',
+        note='Failure-local reading of the calculus (pathProd) is a specification choice, see DESIGN §10.2; execution clause rests on C03.'),
 }
 
 NOT_YET = {}
